@@ -16,7 +16,7 @@ From MZ.spec Require Import DeflateSpec.
 From MZ.model Require Import DeflateCore.
 From MZ.lib Require Import Arr.
 From MZ.model Require InflateStream.
-From MZ.proofs Require Import Protocol StoredSpec StoredDeflate InflateStoredStream StoredWrappersEndToEnd StoredDeflateTotal StoredDeflateReturns.
+From MZ.proofs Require Import Protocol StoredSpec StoredDeflate InflateStoredStream StoredWrappersEndToEnd StoredDeflateTotal StoredDeflateReturns DeflateEndAfterFinish.
 Import ListNotations.
 Local Open Scope N_scope.
 
@@ -159,3 +159,15 @@ Example C14_progress_one_byte_at_a_time :
   | None => False
   end.
 Proof. vm_compute. repeat split; reflexivity. Qed.
+
+(* "stream-end is reported only after Finish": on the control plane of the compressor model (every flag word it
+   models), for every object satisfying FI - "finished only under a Finish request", true of every new object and
+   preserved by every call - if deflate() reports MZ_STREAM_END then the call was made with Finish *)
+Theorem C14_stream_end_only_after_finish :
+  forall c input out_len f code ncons out c',
+  FI c -> deflate c input out_len f = Ret (DRet code ncons out c') ->
+  FI c' /\ (code = D_MZ_STREAM_END -> f = 4).
+Proof. exact deflate_end_only_after_finish. Qed.
+
+Example C14_new_objects_satisfy_FI : forall flags wb, FI (comp_new flags wb).
+Proof. exact FI_new. Qed.
